@@ -106,6 +106,7 @@ def prove(goal, assumptions=(), timeout_ms=None, want_smt2=False, tactic=None):
         STATS.queries += 1
         STATS.unsat += 1
         return Result("unsat", 0.0, reason="syntactic")
+    assumptions = list(assumptions) + sqrt_axioms([g] + list(assumptions))
     # portfolio: default solver first (short budget), then the nlsat pipeline (decides many nonlinear identities the
     # default strategy does not), then the default solver with the full budget
     attempts = [("default", min(int(timeout_ms), 8000)), ("nlsat", int(timeout_ms) // 2), ("default", int(timeout_ms))]
@@ -140,6 +141,22 @@ def prove(goal, assumptions=(), timeout_ms=None, want_smt2=False, tactic=None):
         STATS.unknown += 1
     return Result(v, dt, s.model() if v == "sat" else None, s, s.to_smt2() if want_smt2 else None,
                   reason=s.reason_unknown() if v == "unknown" else "")
+
+
+def sqrt_axioms(ts):
+    """Sqrt is an uninterpreted function in the encoding; for every application Sqrt(a) in the query add
+    a >= 0 => (Sqrt(a) >= 0 and Sqrt(a)^2 == a)   (for a < 0 the real code returns NaN: outside every claim)"""
+    seen, apps = set(), []
+    stack = [t for t in ts if z3.is_expr(t)]
+    while stack:
+        e = stack.pop()
+        if e.get_id() in seen:
+            continue
+        seen.add(e.get_id())
+        if sj.is_app_of(e, "Sqrt", 1):
+            apps.append(e)
+        stack.extend(e.children())
+    return [z3.Implies(a.arg(0) >= 0, z3.And(a >= 0, a * a == a.arg(0))) for a in apps]
 
 
 def satisfiable(constraints, timeout_ms=None):
@@ -331,6 +348,190 @@ def poly_is_zero(t):
     return (not p), poly_term(p, atoms)
 
 
+# --------------------------------------------------------------------------- rational functions in normal form
+ONE = {(): 1}
+
+
+def _pscale(a, c):
+    return {m: v * c for m, v in a.items()} if c != 0 else {}
+
+
+def _ppow(a, n):
+    r = dict(ONE)
+    for _ in range(n):
+        r = _pmul(r, a)
+    return r
+
+
+class RatCtx:
+    """atoms (non-arithmetic sub-terms), denominator factors and the divisors / square-root arguments met while
+    normalising.  A rational function is kept as (P, F): numerator polynomial P and a FACTORED denominator
+    F = {factor key: power} (each divisor's numerator polynomial is one factor), so that sums over a common
+    denominator do not multiply it up."""
+
+    def __init__(self):
+        self.atoms = {}
+        self.memo = {}
+        self.divisors = []
+        self.sqrt_args = []
+        self.factors = {}
+
+    def fkey(self, poly):
+        k = frozenset(poly.items())
+        self.factors.setdefault(k, poly)
+        return k
+
+    def expand(self, F):
+        out = dict(ONE)
+        for k, e in F.items():
+            out = _pmul(out, _ppow(self.factors[k], e))
+        return out
+
+    def scale(self, P, Ffrom, Fto):
+        """P * prod factor^(Fto - Ffrom)   (Fto >= Ffrom factor-wise)"""
+        for k, e in Fto.items():
+            d = e - Ffrom.get(k, 0)
+            if d:
+                P = _pmul(P, _ppow(self.factors[k], d))
+        return P
+
+
+def _flcm(F1, F2):
+    out = dict(F1)
+    for k, e in F2.items():
+        if e > out.get(k, 0):
+            out[k] = e
+    return out
+
+
+def _is_const_poly(P):
+    return len(P) == 1 and () in P
+
+
+def rat_of(t, rc):
+    """z3 Real term -> (P, F) with t == P / prod(F) wherever every divisor met is non-zero (recorded in rc.divisors
+    for the side condition); ring normal form with exact rational coefficients."""
+    from fractions import Fraction
+    k = t.get_id()
+    if k in rc.memo:
+        return rc.memo[k]
+    if sj.is_num(t):
+        v = sj.num_val(t)
+        r = ({(): v} if v != 0 else {}, {})
+    elif z3.is_add(t) or z3.is_sub(t):
+        cs = t.children()
+        P, F = rat_of(cs[0], rc)
+        sign = -1 if z3.is_sub(t) else 1
+        for c in cs[1:]:
+            P2, F2 = rat_of(c, rc)
+            if F2 == F:
+                P = _padd(P, P2, sign)
+            else:
+                L = _flcm(F, F2)
+                P = _padd(rc.scale(P, F, L), rc.scale(P2, F2, L), sign)
+                F = L
+        r = (P, F)
+    elif z3.is_mul(t):
+        P, F = dict(ONE), {}
+        for c in t.children():
+            P2, F2 = rat_of(c, rc)
+            P = _pmul(P, P2)
+            if F2:
+                F = dict(F)
+                for kk, e in F2.items():
+                    F[kk] = F.get(kk, 0) + e
+        r = (P, F)
+    elif z3.is_div(t):
+        P1, F1 = rat_of(t.arg(0), rc)
+        P2, F2 = rat_of(t.arg(1), rc)
+        if not sj.is_num(t.arg(1)):
+            rc.divisors.append(t.arg(1))
+        # (P1 / F1) / (P2 / F2) = P1 F2 / (F1 P2); cancel factors common to F2 and F1
+        F = dict(F1)
+        up = {}
+        for kk, e in F2.items():
+            c = min(e, F.get(kk, 0))
+            if c:
+                F[kk] -= c
+                if not F[kk]:
+                    del F[kk]
+            if e - c:
+                up[kk] = e - c
+        P = _pmul(P1, rc.expand(up)) if up else P1
+        if _is_const_poly(P2):
+            P = _pscale(P, 1 / Fraction(P2[()]))
+        elif not P2:
+            raise ZeroDivisionError("division by the zero polynomial")
+        else:
+            fk = rc.fkey(P2)
+            F[fk] = F.get(fk, 0) + 1
+        r = (P, F)
+    elif z3.is_app_of(t, z3.Z3_OP_UMINUS):
+        P, F = rat_of(t.arg(0), rc)
+        r = (_pscale(P, -1), F)
+    elif z3.is_app_of(t, z3.Z3_OP_POWER) and sj.is_num(t.arg(1)) and sj.num_val(t.arg(1)).denominator == 1 and 0 <= sj.num_val(t.arg(1)) <= 12:
+        P, F = rat_of(t.arg(0), rc)
+        n = int(sj.num_val(t.arg(1)))
+        r = (_ppow(P, n), {kk: e * n for kk, e in F.items()})
+    elif z3.is_app_of(t, z3.Z3_OP_TO_REAL) and sj.is_num(t.arg(0)):
+        v = Fraction(t.arg(0).as_long())
+        r = ({(): v} if v != 0 else {}, {})
+    else:
+        rc.atoms[k] = t
+        r = ({((k, 1),): Fraction(1)}, {})
+    rc.memo[k] = r
+    return r
+
+
+def _reduce_sqrt_poly(P, rc):
+    """P == P' / D' where every atom Sqrt(a) occurs with power <= 1 in P' (Sqrt(a)^2 = a, a >= 0)"""
+    D = dict(ONE)
+    for _ in range(64):
+        target = None
+        for m in P:
+            for k, e in m:
+                if e >= 2 and sj.is_app_of(rc.atoms[k], "Sqrt", 1):
+                    target = k
+                    break
+            if target is not None:
+                break
+        if target is None:
+            return P, D
+        arg = rc.atoms[target].arg(0)
+        if not any(arg.eq(a) for a in rc.sqrt_args):
+            rc.sqrt_args.append(arg)
+        Pa, Fa = rat_of(arg, rc)
+        Qa = rc.expand(Fa)
+        qmax = max((dict(m).get(target, 0) // 2) for m in P)
+        out = {}
+        for m, c in P.items():
+            d = dict(m)
+            e = d.pop(target, 0)
+            q, rem = e // 2, e % 2
+            if rem:
+                d[target] = 1
+            mono = {tuple(sorted(d.items())): c}
+            term = _pmul(_pmul(mono, _ppow(Pa, q)), _ppow(Qa, qmax - q))
+            out = _padd(out, term)
+        P = out
+        D = _pmul(D, _ppow(Qa, qmax))
+    raise RuntimeError("sqrt reduction did not terminate")
+
+
+def rat_diff_is_zero(lhs, rhs, subst=()):
+    """is lhs - rhs the zero rational function (after Sqrt(a)^2 -> a)?  returns (bool, RatCtx)"""
+    rc = RatCtx()
+    l, r = z3.simplify(lhs), z3.simplify(rhs)
+    if subst:
+        l, r = z3.substitute(l, *subst), z3.substitute(r, *subst)
+    P1, F1 = rat_of(l, rc)
+    P2, F2 = rat_of(r, rc)
+    L = _flcm(F1, F2)
+    N = _padd(rc.scale(P1, F1, L), rc.scale(P2, F2, L), -1)
+    N, _ = _reduce_sqrt_poly(N, rc)
+    return (not N), rc
+
+
 def positive_atoms(assumptions):
     """variables x for which the assumptions contain the literal `x > 0` (or `0 < x`)"""
     pos = set()
@@ -360,26 +561,82 @@ def syntactically_positive(t, pos):
     return False
 
 
+ASSUMED_SQRT = [0]
+_DIV_OK = {}
+
+
+def poly_positive(P, atoms, pos):
+    """sufficient condition for P > 0: all coefficients positive, every atom either assumed positive or raised to an
+    even power, and at least one monomial made of positive atoms only"""
+    if not P:
+        return False
+    strict = False
+    for m, c in P.items():
+        if c <= 0:
+            return False
+        allpos = True
+        for k, e in m:
+            if atoms[k].get_id() in pos:
+                continue
+            allpos = False
+            if e % 2:
+                return False
+        strict = strict or allpos
+    return strict
+
+
+def divisor_positive(d, pos):
+    if syntactically_positive(d, pos):
+        return True
+    if sj.is_app_of(d, "Sqrt", 1):
+        return divisor_positive(d.arg(0), pos)         # Sqrt(a) > 0 for a > 0
+    if z3.is_mul(d):
+        if all(divisor_positive(c, pos) for c in d.children()):
+            return True
+    try:
+        rc = RatCtx()
+        N, F = rat_of(z3.simplify(d), rc)
+        N, D2 = _reduce_sqrt_poly(N, rc)
+        if D2 != ONE:
+            return False
+        return poly_positive(N, rc.atoms, pos) and all(poly_positive(rc.factors[k], rc.atoms, pos) for k in F)
+    except Exception:
+        return False
+
+
 def prove_rat_eq(lhs, rhs, assumptions=(), timeout_ms=None, subst=()):
-    """lhs == rhs for rational functions over the reals: cross-multiplied and expanded to a sum of monomials by z3's
-    simplifier (after eliminating the variables in `subst`, which the assumptions determine); the side condition that
-    every cancelled denominator is non-zero under the assumptions is decided syntactically (a polynomial with positive
-    coefficients in variables assumed positive) or by the solver.  Falls back to the plain solver query otherwise."""
+    """lhs == rhs for rational functions over the reals (with square roots): cross-multiplied and brought to ring
+    normal form with exact rational coefficients (after eliminating the variables in `subst`, which the assumptions
+    determine, and using Sqrt(a)^2 = a).  The side condition that every divisor met is non-zero under the assumptions
+    is decided syntactically (a polynomial with positive coefficients in variables assumed positive) or by the solver.
+    Falls back to the plain solver query when the normal form is not zero or a side condition is not proved."""
     t0 = time.time()
     lhs, rhs = z3.simplify(lhs), z3.simplify(rhs)
-    n1, d1 = ratnorm(lhs)
-    n2, d2 = ratnorm(rhs)
-    poly = n1 * d2 - n2 * d1
-    if subst:
-        poly = z3.substitute(poly, *subst)
-    zero, resid = poly_is_zero(poly)
+    try:
+        zero, rc = rat_diff_is_zero(lhs, rhs, subst)
+    except RuntimeError:
+        zero, rc = False, None
     if zero:
         pos = positive_atoms(assumptions)
-        dens = [d for d in (d1, d2) if not (sj.is_num(d) and sj.num_val(d) != 0) and not syntactically_positive(d, pos)]
+        # divisors are checked on the un-substituted terms (the assumptions talk about those variables)
+        rc0 = RatCtx()
+        rat_of(lhs, rc0)
+        rat_of(rhs, rc0)
+        dens = []
+        for d in rc0.divisors:
+            if not divisor_positive(d, pos) and not any(d.eq(x) for x in dens):
+                dens.append(d)
         ok = True
+        sig = tuple(sorted(a.get_id() for a in assumptions))
+        dens = [d for d in dens if (d.get_id(), sig) not in _DIV_OK]
         if dens:
             side = prove(z3.And(*[d != 0 for d in dens]), assumptions, timeout_ms=timeout_ms)
             ok = side.verdict == "unsat"
+            if ok:
+                for d in dens:
+                    _DIV_OK[(d.get_id(), sig)] = (d, list(assumptions))      # keep the terms alive: ids stay unique
+        if rc.sqrt_args:
+            ASSUMED_SQRT[0] += len(rc.sqrt_args)     # Sqrt(a)^2 = a: a >= 0 (else the real code returns NaN: outside every claim)
         if ok:
             STATS.queries += 1
             STATS.unsat += 1
@@ -397,8 +654,16 @@ def resolve_ites(t, assumptions, budget_ms=2000):
     for a in assumptions:
         s.add(a)
 
+    known = {}
+    for a in assumptions:
+        known[a.get_id()] = True
+        if z3.is_not(a):
+            known[a.arg(0).get_id()] = False
+
     def decide(c):
         k = c.get_id()
+        if k in known:
+            return known[k]
         if k not in cache:
             v = None
             s.push(); s.add(z3.Not(c))
@@ -449,3 +714,50 @@ def has_ite(t):
             return True
         stack.extend(e.children())
     return False
+
+
+# --------------------------------------------------------------------------- path enumeration (value-dependent branches)
+def _first_simple_ite_cond(terms):
+    """condition of some `ite` in the terms that itself contains no `ite` (innermost first)"""
+    seen = set()
+    stack = list(terms)
+    found = None
+    while stack:
+        e = stack.pop()
+        if e.get_id() in seen:
+            continue
+        seen.add(e.get_id())
+        if z3.is_app_of(e, z3.Z3_OP_ITE) and not has_ite(e.arg(0)):
+            c = e.arg(0)
+            if not (z3.is_true(c) or z3.is_false(c)):
+                return c
+        stack.extend(e.children())
+    return found
+
+
+def enumerate_paths(terms, assumptions, limit=256, budget_ms=3000):
+    """all feasible truth assignments to the branch conditions (`ite` conditions, e.g. LU pivot choices, abs) of the
+    given terms under the assumptions: the symbolic-execution paths of the value-dependent branches.  A branch whose
+    feasibility the solver cannot decide is kept (more paths, never fewer).  Returns a list of condition lists."""
+    paths = []
+
+    def feasible(conds):
+        s = z3.Solver()
+        s.set("timeout", budget_ms)
+        for a in list(assumptions) + conds:
+            s.add(a)
+        return str(s.check()) != "unsat"
+
+    def rec(ts, conds):
+        if len(paths) >= limit:
+            raise RuntimeError("too many paths")
+        ts = [resolve_ites(z3.simplify(t), list(assumptions) + conds) for t in ts]
+        c = _first_simple_ite_cond(ts)
+        if c is None:
+            paths.append(conds)
+            return
+        for v in (c, z3.Not(c)):
+            if feasible(conds + [v]):
+                rec(ts, conds + [v])
+    rec(list(terms), [])
+    return paths
